@@ -44,6 +44,8 @@ def _gen(rng, i=None):
         name, prog = 'tiny', gen.gen_tiny(rng, True)
     elif k > 0.94:
         name, prog = 'tmpl:nan_variants', gen.tmpl_nan_variants(rng, True)
+    elif k > 0.89:
+        name, prog = 'tmpl:big_handover', gen.tmpl_big_handover(rng)
     else:
         name, prog = gen.gen_case(rng, allow_input=True)
     if rng.random() < 0.35 and not name.startswith('tmpl:dispatch') and name != 'tiny':
@@ -100,6 +102,8 @@ def _case(i):
                 feat.add('fraction_at_handover')
             if any(v is not None and v < 0 for v in vals):
                 feat.add('negative_at_handover')
+            if any(v is not None and (abs(v.numerator) >= 10 ** 10 or v.denominator >= 10 ** 10) for v in vals):
+                feat.add('big_value_at_handover')
             if pm.stacks.get(0):
                 feat.add('stack0_nonempty_at_handover')
             if any(ch in ''.join(pm.out + pm.err) for ch in '{}"\\'):
@@ -221,5 +225,6 @@ def main(tier, seed):
                'pending_heart_target': (featc.get('pending_heart_target', 0), 2),
                'jump_into_prefix_after_read': (featc.get('jump_into_prefix_after_read', 0), 5),
                'heart_return_to_self': (featc.get('heart_return_to_self', 0), 3),
-               'nan_at_handover': (featc.get('nan_at_handover', 0), 2)}
+               'nan_at_handover': (featc.get('nan_at_handover', 0), 2),
+               'big_value_at_handover': (featc.get('big_value_at_handover', 0), 3)}
     return rep.finish(cov, assumptions, t0, minimum)
